@@ -9,6 +9,9 @@ For each change X in {A, B} of each id:
   2. apply the patch to /repo, run every check's quick command, undo (git checkout -- .);
   3. keep it as /verif/seeded/<ID>_<X>/ {patch.diff, demo.rs, meta.json}.
 """
+import os as _os
+_os.environ["MCTP_NO_EVIDENCE"] = "1"  # runs against modified trees must never overwrite /verif/evidence
+
 import json, os, shutil, subprocess, sys, time
 
 VERIF = os.path.dirname(os.path.dirname(os.path.abspath(__file__)))
